@@ -5,7 +5,7 @@ import random
 
 from harness import common, diffexec, gen_cf, lowercorr, propkit
 
-VFILES = ["theories/Namespace.v", "theories/Lower.v", "theories/Reject.v", "theories/UnpackProof.v"]
+VFILES = ["theories/Namespace.v", "theories/Lower.v", "theories/Reject.v", "theories/UnpackProof.v", "theories/DeadCode.v"]
 
 UNSUPPORTED_STMTS = [
     "try:\n    pass\nexcept Exception:\n    pass",
